@@ -68,6 +68,12 @@ func init() {
 			New: func() ipmi.Command {
 				return &ipmi.GetSessionInfoCmd{Req: ipmi.GetSessionInfoReq{Index: ipmi.SessionIndexHandle, Handle: 0x33}}
 			}}),
+		// the v1.5-style form (no extended data) that is used as a keepalive: its one
+		// flag bit is clear, so the first request byte is the channel number alone
+		addOp(histOp{Name: "GetChannelAuthenticationCapabilities(no extended data)", NetFn: 0x06, Cmd: 0x38, Data: []byte{0x0E, 0x04},
+			New: func() ipmi.Command {
+				return &ipmi.GetChannelAuthenticationCapabilitiesCmd{Req: ipmi.GetChannelAuthenticationCapabilitiesReq{Channel: ipmi.ChannelPresentInterface, MaxPrivilegeLevel: ipmi.PrivilegeLevelAdministrator}}
+			}}),
 		addOp(histOp{Name: "GetSDRRepositoryInfo", NetFn: 0x0a, Cmd: 0x20, New: func() ipmi.Command { return &ipmi.GetSDRRepositoryInfoCmd{} }}),
 		addOp(histOp{Name: "ReserveSDRRepository", NetFn: 0x0a, Cmd: 0x22, New: func() ipmi.Command { return &ipmi.ReserveSDRRepositoryCmd{} }}),
 		addOp(histOp{Name: "GetChannelCipherSuites", NetFn: 0x06, Cmd: 0x54, Data: []byte{0x0E, 0x00, 0x81},
